@@ -25,6 +25,8 @@ def model(max_ops: int, rewind: bool = True, emit: bool = True):
 def images(work: str, seed: int) -> List[Dict[str, Any]]:
     out = []
     a = naming.akai_dirs_case(["VOL A", "VOL B"])
+    from .c04 import loop_table
+    a["parts"][0]["vols"][0]["files"][0]["hdr"] = {"loop_type": 1, "loops": loop_table([(40, 0, 10, 250), (30, 0, 5, 0), (20, 0, 7, 9999)])}
     a["parts"][0]["vols"][0]["files"].append({"name": "S9-L", "stem": "S9", "ftype": 243, "chain": [a["nsect"]], "cnt": 77, "ps": 0, "pe": 77,
                                               "rate": 22050, "pair": "L"})
     a["parts"][0]["vols"][0]["files"].append({"name": "S9-R", "stem": "S9", "ftype": 243, "chain": [a["nsect"] + 1], "cnt": 77, "ps": 0, "pe": 77,
